@@ -137,6 +137,32 @@ class Tree:
                     self.add(x, "file", ip, ".gitignore", size=os.path.getsize(ip))
                     self.rules[x] = [f["name"]]
                     self.twin = True
+        # three routes to one directory that has an ignore file of its own: directly, and through links from two directories whose
+        # ignore files name different files of it (the visits must be told apart by ALL ignore files in effect, not by the innermost)
+        if seed % 3 == 1:
+            holders = [d for d in dirs if d not in self.rules and len([f for f in self.entries if f["kind"] == "file" and f["parent"] == d and not f["name"].startswith(".")]) >= 2]
+            others = [x for x in dirs if x not in self.rules]
+            if holders and len(others) >= 3:
+                d = rng.choice(holders)
+                fs_ = [f for f in self.entries if f["kind"] == "file" and f["parent"] == d and not f["name"].startswith(".")][:2]
+                xs = [x for x in others if x != d and x not in self.ancestors(d) and d not in self.ancestors(x)]
+                if len(xs) >= 2:
+                    dp = self.entries[d - 1]["path"]
+                    with open(os.path.join(dp, ".fdignore"), "w") as fh:
+                        fh.write("no-such-name\n")
+                    self.add(d, "file", os.path.join(dp, ".fdignore"), ".fdignore", size=13)
+                    self.rules[d] = ["no-such-name"]
+                    for x, f in zip(rng.sample(xs, 2), fs_):
+                        xp = self.entries[x - 1]["path"]
+                        lp = os.path.join(xp, "via%d" % len(self.entries))
+                        os.symlink(dp, lp)
+                        self.add(x, "link", lp, os.path.basename(lp), target=d)
+                        ip = os.path.join(xp, ".gitignore")
+                        with open(ip, "w") as fh:
+                            fh.write(f["name"] + "\n")
+                        self.add(x, "file", ip, ".gitignore", size=os.path.getsize(ip))
+                        self.rules[x] = [f["name"]]
+                    self.twin = True
         for e in self.entries:
             if e["parent"] and self.entries[e["parent"] - 1]["dev"] == 2:
                 e["dev"] = 2
